@@ -4,6 +4,8 @@ import (
 	"bytes"
 	"encoding/hex"
 	"fmt"
+	"runtime/debug"
+	"strings"
 	"sync"
 	"time"
 
@@ -63,6 +65,9 @@ type Monitor struct {
 	NMoves   int
 	NReorgs  int // tip changes that left the previous tip's chain
 	MaxDepth int
+	// RecoveredPanics are manager panics raised inside an RPC handler, where the
+	// syncer recovers them (recorded, not a verdict)
+	RecoveredPanics []string
 }
 
 // NewMonitor starts monitoring cm, whose tip must be a chain-valid tree node.
@@ -113,6 +118,13 @@ func (m *Monitor) Tip() *chainlab.Node {
 	m.mu.Lock()
 	defer m.mu.Unlock()
 	return m.last
+}
+
+// Recovered returns the manager panics that were raised inside RPC handlers.
+func (m *Monitor) Recovered() []string {
+	m.mu.Lock()
+	defer m.mu.Unlock()
+	return append([]string(nil), m.RecoveredPanics...)
 }
 
 // Stats returns counters.
@@ -231,7 +243,7 @@ func (m *Monitor) Final() []Finding {
 	return m.Findings()
 }
 
-func (m *Monitor) afterCall(kind string, blocks []types.Block, err error, panicked any) {
+func (m *Monitor) afterCall(kind string, blocks []types.Block, err error, panicked any, inHandler bool) {
 	m.mu.Lock()
 	defer m.mu.Unlock()
 	m.NCalls[kind]++
@@ -253,7 +265,13 @@ func (m *Monitor) afterCall(kind string, blocks []types.Block, err error, panick
 	}
 	if panicked != nil {
 		rec.Err = fmt.Sprint("panic: ", panicked)
-		m.addFinding(Finding{"panic:" + kind, fmt.Sprintf("%s: %s panicked: %v", m.Name, kind, panicked), nil})
+		if inHandler {
+			if len(m.RecoveredPanics) < 16 {
+				m.RecoveredPanics = append(m.RecoveredPanics, fmt.Sprintf("%s: %v", kind, panicked))
+			}
+		} else {
+			m.addFinding(Finding{"panic-outside-rpc-handler:" + kind, fmt.Sprintf("%s: %s panicked outside the recovering RPC dispatcher (would crash the process): %v", m.Name, kind, panicked), nil})
+		}
 	}
 	prev := m.last
 	node := m.observe(kind, true)
@@ -282,10 +300,20 @@ type AuditCM struct {
 	Perturb func()
 }
 
-func guard(fn func()) (p any) {
-	defer func() { p = recover() }()
+// guard runs fn and reports a panic together with whether it was raised
+// underneath the syncer's RPC dispatcher, which recovers handler panics in
+// production ("handler panics are recovered"); such a panic is recorded and
+// re-raised to keep that behaviour. Any other panic (e.g. in the parallel sync
+// goroutines) would kill the process; it becomes a finding and an error.
+func guard(fn func()) (p any, inHandler bool) {
+	defer func() {
+		if v := recover(); v != nil {
+			p = v
+			inHandler = strings.Contains(string(debug.Stack()), "syncer.(*Syncer).handleRPC")
+		}
+	}()
 	fn()
-	return nil
+	return nil, false
 }
 
 // AddBlocks implements syncer.ChainManager.
@@ -296,9 +324,12 @@ func (a *AuditCM) AddBlocks(blocks []types.Block) error {
 	a.callMu.Lock()
 	defer a.callMu.Unlock()
 	var err error
-	p := guard(func() { err = a.Manager.AddBlocks(blocks) })
-	a.Mon.afterCall("AddBlocks", blocks, err, p)
+	p, inH := guard(func() { err = a.Manager.AddBlocks(blocks) })
+	a.Mon.afterCall("AddBlocks", blocks, err, p, inH)
 	if p != nil {
+		if inH {
+			panic(p)
+		}
 		return fmt.Errorf("AddBlocks panicked: %v", p)
 	}
 	return err
@@ -312,9 +343,12 @@ func (a *AuditCM) AddValidatedV2Blocks(blocks []types.Block, states []consensus.
 	a.callMu.Lock()
 	defer a.callMu.Unlock()
 	var err error
-	p := guard(func() { err = a.Manager.AddValidatedV2Blocks(blocks, states) })
-	a.Mon.afterCall("AddValidatedV2Blocks", blocks, err, p)
+	p, inH := guard(func() { err = a.Manager.AddValidatedV2Blocks(blocks, states) })
+	a.Mon.afterCall("AddValidatedV2Blocks", blocks, err, p, inH)
 	if p != nil {
+		if inH {
+			panic(p)
+		}
 		return fmt.Errorf("AddValidatedV2Blocks panicked: %v", p)
 	}
 	return err
@@ -326,9 +360,12 @@ func (a *AuditCM) AddV2PoolTransactions(basis types.ChainIndex, txns []types.V2T
 	defer a.callMu.Unlock()
 	var known bool
 	var err error
-	p := guard(func() { known, err = a.Manager.AddV2PoolTransactions(basis, txns) })
-	a.Mon.afterCall("AddV2PoolTransactions", nil, err, p)
+	p, inH := guard(func() { known, err = a.Manager.AddV2PoolTransactions(basis, txns) })
+	a.Mon.afterCall("AddV2PoolTransactions", nil, err, p, inH)
 	if p != nil {
+		if inH {
+			panic(p)
+		}
 		return false, fmt.Errorf("AddV2PoolTransactions panicked: %v", p)
 	}
 	return known, err
@@ -340,9 +377,12 @@ func (a *AuditCM) AddPoolTransactions(txns []types.Transaction) (bool, error) {
 	defer a.callMu.Unlock()
 	var known bool
 	var err error
-	p := guard(func() { known, err = a.Manager.AddPoolTransactions(txns) })
-	a.Mon.afterCall("AddPoolTransactions", nil, err, p)
+	p, inH := guard(func() { known, err = a.Manager.AddPoolTransactions(txns) })
+	a.Mon.afterCall("AddPoolTransactions", nil, err, p, inH)
 	if p != nil {
+		if inH {
+			panic(p)
+		}
 		return false, fmt.Errorf("AddPoolTransactions panicked: %v", p)
 	}
 	return known, err
